@@ -28,7 +28,7 @@ from ..cfg import explore, canon_fact
 from ..model import AnalysisError
 from ..mutate import mutate, remove_stmts, replace_expr, replace_stmt, parse_stmt, parse_expr
 from ..rules import tainted_names, mentions, writers_of
-from ..x_secflow import Reach, same, own_nodes
+from ..x_secflow import Reach, same, own_nodes, concat_canon, positional_call, scalar_const
 
 TECHNIQUE = "typestate exploration on the CFGs of StaticFileHandler.get and validate_absolute_path (validated / contained / separator-terminated), derived filesystem-touching call set through the MRO, provenance of filesystem arguments, who-may-write"
 EXPLANATION = (
@@ -214,13 +214,15 @@ def check_get(ck, get, touching, validator="validate_absolute_path", joiner="get
     ck.floor("C26.get-validated", governed, 4, "filesystem-touching calls in get")
     # the validator's arguments
     for n in vnodes:
-        c = n.ast.value
-        ck.need(len(c.args) == 2, "get: %s called with unexpected arguments" % validator)
+        c = positional_call(n.ast.value, [p_ for p_ in ck.repo.func(W, SF + "." + validator).params() if p_ not in ("self", "cls")])
+        ck.need(len(c.args) == 2 and not c.keywords, "get: %s called with unexpected arguments" % validator)
         root = rd.expand(c.args[0], n)
         if q.dotted(root) != "self.root" and not isinstance(root, ast.Constant) and not (q.dotted(root) or "").startswith("self."):
             raise AnalysisError("get: cannot establish which root the validator is given (%s)" % q.unparse(root)[:60])
         ck.ob("C26.get-flow", get, c, q.dotted(root) == "self.root", "the validator is given the configured root (self.root)", construct="validator root")
         cand = rd.expand(c.args[1], n)
+        if self_call_name(cand) == joiner:
+            cand = positional_call(cand, [p_ for p_ in ck.repo.func(W, SF + "." + joiner).params() if p_ not in ("self", "cls")])
         ok = self_call_name(cand) == joiner and len(cand.args) == 2
         if not ok and any(isinstance(x, ast.Call) and q.dotted(x.func) not in ("os.path.join",) for x in ast.walk(cand)):
             raise AnalysisError("get: the path handed to the validator is computed in a way the rule does not understand (%s)" % q.unparse(cand)[:60])
@@ -361,6 +363,7 @@ class Validator:
 
     def classify(self, n):
         e, at = self.resolved_test(n)
+        e = concat_canon(e)
         if {x.id for x in ast.walk(e) if isinstance(x, ast.Name)} & self.pathvars:
             e = self.path_alias_free(e, at)
         names = {x.id for x in ast.walk(e) if isinstance(x, ast.Name)}
@@ -488,6 +491,7 @@ def helper_summary(ck, hfi, pname):
 
 
 def check_validator(ck, fi):
+    _STATUS_CTX["fi"] = fi
     V = Validator(fi)
     cfg, rd, X = V.cfg, V.rd, V.X
     kinds = {}
@@ -623,7 +627,18 @@ def check_validator(ck, fi):
             if isinstance(node, ast.Return):
                 if not isinstance(node.value, ast.Name):
                     raise AnalysisError("validate_absolute_path: returns an expression rather than the path variable: %s" % q.unparse(node.value)[:60])
-                ck.ob("C26.contained", fi, node, node.value.id == X, "the returned path is the contained path", construct="returned value")
+                rv = node.value.id
+                for _k in range(3):  # `result = absolute_path ... return result`
+                    if rv == X:
+                        break
+                    dr = rd.unique(n, rv)
+                    if dr is not None and dr.kind == "assign" and isinstance(dr.value, ast.Name) and rd.IN.get(dr.node.id, {}).get(dr.value.id) == rd.IN.get(n.id, {}).get(dr.value.id):
+                        rv = dr.value.id
+                    else:
+                        break
+                if rv != X and rv not in fi.params():
+                    raise AnalysisError("validate_absolute_path: cannot establish what the returned local %s holds" % node.value.id)
+                ck.ob("C26.contained", fi, node, rv == X, "the returned path is the contained path", construct="returned value")
     ck.floor("C26.contained", g, 3, "governed sites in validate_absolute_path")
     # a path is returned only for a regular file (a directory or a missing file must end in 403/404, not in a 500 from open/stat)
     from ..x_secflow import edge_dominates
@@ -688,10 +703,20 @@ def _reach_to(cfg, nid):
     return seen
 
 
+_STATUS_CTX = {}
+
+
 def _http_status(r: ast.Raise):
     c = r.exc
-    if isinstance(c, ast.Call) and q.dotted(c.func) == "HTTPError" and c.args and isinstance(c.args[0], ast.Constant):
-        return c.args[0].value
+    if isinstance(c, ast.Call) and q.dotted(c.func) == "HTTPError":
+        a = q.arg(c, 0, "status_code")
+        if isinstance(a, ast.Constant):
+            return a.value
+        if a is not None and _STATUS_CTX.get("fi") is not None:
+            try:
+                return scalar_const(_STATUS_CTX["fi"].module, _STATUS_CTX["fi"].cls, a)  # a named status constant
+            except KeyError:
+                raise AnalysisError("HTTPError status %s is not a literal or a named constant" % q.unparse(a)[:40])
     return None
 
 
